@@ -128,13 +128,26 @@ def _rewrite_abortable(text, spec, log):
     po = m.index('(', hit.start())
     pc = rl.match_bracket(m, po)
     reg = text[bc + 1:pc].strip().strip(',').strip()
-    tail = re.match(r'\s*\.instrument\((\w+)\)\s*\.await', m[pc + 1:])
-    if not tail:
-        raise ExtractError('R15: expected `.instrument(span).await` after Abortable::new(..)')
-    end = pc + 1 + tail.end()
     body = text[bo:bc + 1]
     new = 'if %s.aborted() { Err(Aborted) } else { Ok(Self::%s(%s).await) }' % (reg, spec['name'], spec['call_args'])
-    text = text[:hit.start()] + new + text[end:]
+    tail = re.match(r'\s*\.instrument\((\w+)\)\s*\.await', m[pc + 1:])
+    if tail:
+        end = pc + 1 + tail.end()
+        text = text[:hit.start()] + new + text[end:]
+    else:
+        # shape 2: `let NAME = Abortable::new(..);` ... `NAME.instrument(span).await`
+        ls = text.rfind('\n', 0, hit.start()) + 1
+        lm = re.match(r'\s*let (\w+) = $', text[ls:hit.start()])
+        semi = re.match(r'\s*;[ \t]*\n?', text[pc + 1:])
+        if not lm or not semi:
+            raise ExtractError('R15: expected `.instrument(span).await` after Abortable::new(..) or `let x = Abortable::new(..);`')
+        name = lm.group(1)
+        rest = text[pc + 1 + semi.end():]
+        use = re.search(r'\b%s\s*\.instrument\((\w+)\)\s*\.await' % re.escape(name), rl.mask(rest))
+        if not use or len(re.findall(r'\b%s\b' % re.escape(name), rl.mask(rest))) != 1:
+            raise ExtractError('R15: the Abortable value `%s` must be used exactly once, as `%s.instrument(span).await`' % (name, name))
+        rest = rest[:use.start()] + new + rest[use.end():]
+        text = text[:ls] + rest
     log.append(dict(rule='R15:abortable', part='body', count=1, matched=['Abortable::new(async move {..}, %s).instrument(..).await' % reg],
                     replaced_by=new, why='A-abortable: two-outcome model (aborted | ran to completion); the async block becomes a named async fn with its body unchanged; .instrument(span) only attaches the span (A-tracing)'))
     return text, body
@@ -680,8 +693,14 @@ def build_unit(unit: Unit, outdir, repo=None):
             except rl.LexError as ex:
                 raise ExtractError('%s: %s' % (f.name, ex))
         for local in f.drops_at_end:
-            k = body.rstrip().rfind('}')
-            body = body[:k] + '    %s.drop(Tracked(fx));\n    ' % local + body[k:]
+            has_value = bool(re.search(r'\)\s*->', sig))
+            if has_value:
+                if re.search(r'\breturn\b', rl.mask(body)):
+                    raise ExtractError('%s: R14 cannot place the drop of %s: the body has early returns' % (f.name, local))
+                body = '{\n        let r__tail = ' + body + ';\n        %s.drop(Tracked(fx));\n        r__tail\n    }' % local
+            else:
+                k = body.rstrip().rfind('}')
+                body = body[:k] + '    %s.drop(Tracked(fx));\n    ' % local + body[k:]
             log.append(dict(rule='R14:explicit-drop', part='body', count=1, matched=[local], replaced_by='%s.drop(..) at the end of the body' % local,
                             why='Rust drops the local there; Verus does not model implicit Drop calls'))
         # ---- body
